@@ -71,6 +71,38 @@ Theorem C09_or_default_iff_absent : forall l k d,
   /\ (forall v, massoc k l = Some v -> c_get (VMap l) k d = Ok v).
 Proof. exact Refuted.or_default_iff_absent. Qed.
 
+(** [:or] is keyed on the NAME being in the :or map, never on the truthiness of the default: for
+    a :keys / :strs / :syms element and a {sym key} entry alike, a binder with an :or entry whose
+    key is absent from the map is bound to the default's value [dv], whatever [dv] is (false, nil). *)
+Theorem C09_or_default_any_value :
+  forall (sh : shape) (datum : expr C -> cval) (nm : name) (ors : list (str * expr C)) (x : str)
+         (ns : option str) (de : expr C) (l : list (cval * cval)) (dv : cval) (en : env C),
+    assoc x ors = Some de ->
+    lookup nm en = Some (VMap l) ->
+    eval en de = Ok dv ->
+    (kw_binding C nm ors (ns, x) = (NU x, @EGet3 C (EVar nm) (@EConst C (VKw ns x)) de)
+     /\ (massoc (VKw ns x) l = None -> eval en (snd (kw_binding C nm ors (ns, x))) = Ok dv))
+    /\ (str_binding C nm ors x = (NU x, @EGet3 C (EVar nm) (@EConst C (VStr x)) de)
+        /\ (massoc (VStr x) l = None -> eval en (snd (str_binding C nm ors x)) = Ok dv))
+    /\ (sym_binding C nm ors (ns, x) = (NU x, @EGet3 C (EVar nm) (@EConst C (VSym ns x)) de)
+        /\ (massoc (VSym ns x) l = None -> eval en (snd (sym_binding C nm ors (ns, x))) = Ok dv))
+    /\ (forall k kv, named_binding C cur_shape datum nm ors k (NU x) = (NU x, @EGet3 C (EVar nm) k de)
+        /\ (eval en k = Ok kv -> massoc kv l = None ->
+            eval en (snd (named_binding C cur_shape datum nm ors k (NU x))) = Ok dv)).
+Proof. exact Refuted.or_default_any_value. Qed.
+
+Example C09_or_falsey_defaults :
+  let run d v := (finish [Refuted.a_] (model_let cur_shape (Refuted.w_or d v)),
+                  finish [Refuted.a_] (bind_let C (Refuted.w_or d v) [])) in
+  run (Some (VBool false)) None = (OVals [VBool false], OVals [VBool false])
+  /\ run (Some VNil) None = (OVals [VNil], OVals [VNil])
+  /\ run (Some (VInt 0)) None = (OVals [VInt 0], OVals [VInt 0])
+  /\ run None None = (OVals [VNil], OVals [VNil])
+  /\ run (Some (VBool false)) (Some VNil) = (OVals [VNil], OVals [VNil])
+  /\ run (Some (VInt 1)) (Some (VBool false)) = (OVals [VBool false], OVals [VBool false])
+  /\ out_eqb (OVals [VBool false]) (OVals [VNil]) = false.
+Proof. exact Refuted.or_falsey_defaults. Qed.
+
 Example C09_dup_binders_later_wins :
   let_ok C Refuted.w_dup = true
   /\ finish [Refuted.a_] (model_let cur_shape Refuted.w_dup) = OVals [VInt 2]
@@ -213,6 +245,8 @@ Print Assumptions C09_let_sound.
 Print Assumptions C09_fn_loop_block_sound.
 Print Assumptions C09_destructure_binds_only_pattern_names.
 Print Assumptions C09_or_default_iff_absent.
+Print Assumptions C09_or_default_any_value.
+Print Assumptions C09_or_falsey_defaults.
 Print Assumptions C09_dup_binders_later_wins.
 Print Assumptions C09_dup_alias_outside_guard.
 Print Assumptions C09_or_quoted_key_old_shape_refuted.
